@@ -1,6 +1,7 @@
 import PpciVerif.Model.Proto
 import PpciVerif.Model.WasmBin
 import PpciVerif.Gen.WasmOpcodes
+import PpciVerif.Model.WatIds
 /-! Line-protocol driver for C21 (wasm binary reader/writer model).
 
   read <hex>        -> ok <module>          Model reader (Python-mirroring) on the bytes
@@ -9,6 +10,7 @@ import PpciVerif.Gen.WasmOpcodes
   valid <module>    -> ok true|false        hypothesis of the round-trip theorem
   normalize <module>-> ok <module>
   sane              -> ok true|false        Tables.Sane of the generated tables (evaluated, not proved)
+  ids <tok>*        -> ok <tok>,… | err AssertionError   Model.WatIds.parse; tok = _ (anonymous) | u<k> ($name) | a<n> ($n)
 
   <module> is one S-expression without line breaks:
     (module D*)   D = (type (T*) (T*)) | (import HEX HEX (func N)|(table T N MAX)|(memory N MAX)|(global T B))
@@ -212,8 +214,23 @@ def pModule (s : String) : Option (List Def) :=
 
 def restOf (line : String) (op : String) : String := (line.trimAscii.toString.drop (op.length + 1)).toString
 
+def idTok? (s : String) : Option (Option Model.WatIds.Id) :=
+  if s == "_" then some none
+  else if s.startsWith "u" then ((s.drop 1).toString.toNat?).map (fun k => some (.user k))
+  else if s.startsWith "a" then ((s.drop 1).toString.toNat?).map (fun n => some (.num n))
+  else none
+
+def showId : Model.WatIds.Id → String
+  | .user k => s!"u{k}"
+  | .num n => s!"a{n}"
+
 def step (line : String) : String :=
   match words line with
+  | "ids" :: toks => match toks.mapM idTok? with
+    | some names => match Model.WatIds.parse names with
+      | some ids => "ok " ++ ",".intercalate (ids.map showId)
+      | none => "err AssertionError"
+    | none => "bad-op"
   | ["read", h] => match fromHex h with
     | some bs => match readModule T false bs with
       | .ok m => "ok " ++ showSX (sxModule m)
